@@ -291,7 +291,11 @@ def oracle(c, prop, viol):
         if int(stat["ms"]) > 3000:
             viol("the failing start took %s ms to return" % stat["ms"])
         return
-    if kv.get("prompt") and res[0] == "ok" and int(stat["ms"]) > int(kv["prompt"]):
+    if kv.get("prompt") and res[0] == "ok" and int(stat["ms"]) > int(kv["prompt"]) and kv["term"].startswith("stream_"):
+        viol("the reader was dropped with output still coming, and the drop returned only after %s ms%s: the writer was not "
+             "ended by closing the pipe (SIGPIPE must be deliverable in the started command)"
+             % (stat["ms"], " (the caller has SIGPIPE blocked)" if kv.get("sigblock") == "1" else ""))
+    elif kv.get("prompt") and res[0] == "ok" and int(stat["ms"]) > int(kv["prompt"]):
         viol("the last command exited at once, but the call returned only after %s ms: an earlier command went on running "
              "although nobody reads its output any more (it must be ended by SIGPIPE / a broken pipe)" % stat["ms"])
     # ---- success path
@@ -546,6 +550,14 @@ def gen_c12(ctx):
     # while still holding the pipe it writes to
     specs.append(spec(1, ["YC"], i="D", term="capture", data=50000, read="all") + " epipe=1")
     specs.append(spec(2, ["YC", "C"], i="D", term="capture", data=50000, read="all") + " epipe=1")
+    # the calling thread has SIGPIPE blocked (worker threads of programs that collect signals in one place): a writer nobody
+    # reads any more must still be ended when its handle is dropped (`W`: a shell loop that goes on for 4 s whatever its writes
+    # return, and ends at once only through the signal)
+    for rd in ("100", "0"):
+        specs.append(spec(1, ["W"], term="stream_stdout", read=rd) + " sigblock=1 prompt=2500")
+        specs.append(spec(2, ["W", "C"], term="stream_stdout", read=rd) + " sigblock=1 prompt=2500")
+        specs.append(spec(2, ["C", "W"], i="P", term="stream_stdout", read=rd) + " sigblock=1 prompt=2500")
+    specs.append(spec(1, ["W"], term="stream_stdout", read="100") + " prompt=2500")
     # the handle is dropped by a panic unwinding the caller's frame (caught further up): same obligations as any drop
     for beh in ["G10:0", "G200000:3"]:
         specs.append(spec(1, [beh], o="F", term="popen") + " panic=1")
